@@ -289,8 +289,16 @@ def evaluate__treat_expression(self: XPathToken, context: ta.ContextType = None)
         for _ in self[0].select(context):
             raise self.error('XPDY0050')
     elif self[1].label in ('kind test', 'sequence type', 'function test'):
+        if context is None:
+            raise self.missing_context()
+
         for position, item in enumerate(self[0].select(context)):
-            result = self[1].evaluate(context)
+            item_context = copy(context)
+            item_context.item = item
+            if item_context.axis is None:
+                item_context.axis = 'self'
+
+            result = self[1].evaluate(item_context)
             if not result and isinstance(result, list):
                 raise self.error('XPDY0050')
             elif position and occurs in ('', '?'):
